@@ -333,9 +333,11 @@ func (sp *SAMLServiceProvider) SigningContext() *dsig.SigningContext {
 	if signingContext != nil {
 		return signingContext
 	}
+	verifPoint("signingctx.miss", 0, 0)
 
 	sp.signingContextMu.Lock()
 	defer sp.signingContextMu.Unlock()
+	verifPoint("signingctx.locked", 0, 0)
 
 	signing := sp.spSigningKeyStoreOverride
 	if signing == nil {
@@ -357,6 +359,7 @@ func (sp *SAMLServiceProvider) SigningContext() *dsig.SigningContext {
 	if sp.SignAuthnRequestsCanonicalizer != nil {
 		sp.signingContext.Canonicalizer = sp.SignAuthnRequestsCanonicalizer
 	}
+	verifPoint("signingctx.built", 0, 0)
 
 	return sp.signingContext
 }
